@@ -44,6 +44,7 @@ var PlatformPool = [][2]string{{"linux", "amd64"}, {"linux", "amd64"}, {"darwin"
 var LocalCounterPool = []string{
 	"editor:vscode", "editor:vim", "editor:emacs", "editor", "editor:", "editor:vscode2", "xeditor:vscode",
 	"editor:{vscode,vim}", "plain", "plain2", "plai", "go/invocations", "go/invocation", "flag:-json", "flag:{-json}",
+	"crash/crash", "crash/other", // plain counters named like approved stack counters
 }
 
 var LocalStackPool = []string{
